@@ -1165,7 +1165,9 @@ fn light_rewrite_comment(
             let first_non_whitespace = l.find(|c| !char::is_whitespace(c));
             let left_trimmed = if let Some(fnw) = first_non_whitespace {
                 if l.as_bytes()[fnw] == b'*' && fnw > 0 {
-                    &l[fnw - 1..]
+                    // keep the character in front of the `*`; it can be wider than a byte
+                    let prev = l[..fnw].char_indices().next_back().map_or(0, |(i, _)| i);
+                    &l[prev..]
                 } else {
                     &l[fnw..]
                 }
